@@ -40,6 +40,10 @@ def eval (rs : Roles) : List String → Option String
     let s ← textOf h
     -- bytes ≥ 0x80 are not modelled as text
     if s.any (fun c => c.toNat ≥ 128) then some "unspecified" else some (showR (parse ro s))
+  | ["addr-json", role, h] => do        -- the quoted text through UnmarshalJSON: the same parser, the same port rule
+    let (ro, _) ← rs.get role
+    let s ← textOf h
+    if s.any (fun c => c.toNat ≥ 128) then some "unspecified" else some (showR (parse ro s))
   | ["addr-format", role, a, b, c, d, p] => do
     let (_, om) ← rs.get role
     let [a, b, c, d, p] ← [a, b, c, d, p].mapM String.toNat? | none
